@@ -18,7 +18,7 @@ Lemma take_front_cur (r : range) (tail cur : rangelist) anum remove_num num rl1 
   slots_total cur1 + anum = slots_total cur + num1.
 Proof.
   intros Hr Hnum Hrem Hstep. unfold wf_range in Hr.
-  destruct (N.leb num remove_num) eqn:E; inversion Hstep; subst rl1 cur1 num1; clear Hstep;
+  destruct (N.leb num remove_num) eqn:Eleb; inversion Hstep; subst rl1 cur1 num1; clear Hstep;
     rewrite slots_total_app, slots_total_cons; change (slots_total []) with 0; cbn [fst snd]; lia.
 Qed.
 
@@ -32,19 +32,19 @@ Local Notation phiL := (phi avg rem ex).
 Local Notation numinvL := (numinv avg rem ex).
 Local Notation preL := (pre dmn).
 
-Definition E (d : N) : N := nth (N.to_nat d) ex 0.
+Definition exnum (d : N) : N := nth (N.to_nat d) ex 0.
 
 (* per-destination bookkeeping: destinations before a_dst are complete, the current one has a_num collected
    (flushed migrations plus a_cur), later ones have nothing *)
 Definition Gd (acc : macc) : Prop := forall d,
   msum d (a_migs acc) + (if N.eqb d (a_dst acc) then slots_total (a_cur acc) else 0) =
-  (if N.ltb d (a_dst acc) then dfinL d - E d else if N.eqb d (a_dst acc) then a_num acc else 0).
+  (if N.ltb d (a_dst acc) then dfinL d - exnum d else if N.eqb d (a_dst acc) then a_num acc else 0).
 
-Lemma nth_error_E a e : nth_error ex (N.to_nat a) = Some e -> E a = e.
-Proof. intros H. unfold E. apply nth_error_nth. exact H. Qed.
+Lemma nth_error_E a e : nth_error ex (N.to_nat a) = Some e -> exnum a = e.
+Proof. intros H. unfold exnum. apply nth_error_nth. exact H. Qed.
 
 Lemma Gd_skip acc e :
-  Gd acc -> a_num acc = 0 -> a_cur acc = [] -> E (a_dst acc) = e -> dfinL (a_dst acc) <= e ->
+  Gd acc -> a_num acc = 0 -> a_cur acc = [] -> exnum (a_dst acc) = e -> dfinL (a_dst acc) <= e ->
   Gd (mkAcc (a_dst acc + 1) (a_cur acc) (a_num acc) (a_migs acc)).
 Proof.
   intros HG Hz Hc He Hd d. specialize (HG d). cbn [a_dst a_cur a_num a_migs]. rewrite Hz, Hc, slots_total_nil in *.
@@ -60,7 +60,7 @@ Qed.
 Lemma Gd_flush_adv acc cur1 num1 meta rl e :
   Gd acc -> dst_master meta = a_dst acc -> slots_total rl = slots_total cur1 ->
   slots_total cur1 + a_num acc = slots_total (a_cur acc) + num1 ->
-  E (a_dst acc) = e -> num1 + e = dfinL (a_dst acc) ->
+  exnum (a_dst acc) = e -> num1 + e = dfinL (a_dst acc) ->
   Gd (mkAcc (a_dst acc + 1) [] 0 ((rl, meta) :: a_migs acc)).
 Proof.
   intros HG Hm Hrl Hst He Hd d. specialize (HG d). cbn [a_dst a_cur a_num a_migs].
@@ -338,12 +338,12 @@ Proof.
 Qed.
 
 (* ---------- final arithmetic: every destination ends with exactly its final number ---------- *)
-Definition E_le : Prop := forall d, d < dmn -> E d <= dfinL d.
+Definition E_le : Prop := forall d, d < dmn -> exnum d <= dfinL d.
 
-Lemma nth_error_E_lt a : length ex = N.to_nat dmn -> a < dmn -> nth_error ex (N.to_nat a) = Some (E a).
-Proof. intros Hlen Ha. unfold E. apply nth_error_nth'. lia. Qed.
+Lemma nth_error_E_lt a : length ex = N.to_nat dmn -> a < dmn -> nth_error ex (N.to_nat a) = Some (exnum a).
+Proof. intros Hlen Ha. unfold exnum. apply nth_error_nth'. lia. Qed.
 
-(* T(a) = sum over j in [a, dmn) of (dfin j - E j) is not negative *)
+(* T(a) = sum over j in [a, dmn) of (dfin j - exnum j) is not negative *)
 Lemma T_nonneg : length ex = N.to_nat dmn -> E_le ->
   forall n a, N.to_nat (dmn - a) = n -> a <= dmn -> sumFL a + sumEL dmn <= sumFL dmn + sumEL a.
 Proof.
@@ -358,14 +358,14 @@ Qed.
 (* T(a) = 0: every term is 0 *)
 Lemma T_zero : length ex = N.to_nat dmn -> E_le ->
   forall n a, N.to_nat (dmn - a) = n -> a <= dmn -> sumFL a + sumEL dmn = sumFL dmn + sumEL a ->
-  forall j, a <= j -> j < dmn -> E j = dfinL j.
+  forall j, a <= j -> j < dmn -> exnum j = dfinL j.
 Proof.
   intros Hlen Hle. induction n as [|n IH]; intros a Hn Ha Heq j Hj1 Hj2; [lia|].
   assert (Hlt : a < dmn) by lia.
   pose proof (T_nonneg Hlen Hle n (a + 1) ltac:(lia) ltac:(lia)) as Hnn.
   rewrite sumF_succ, (sumE_succ _ _ _ (nth_error_E_lt a Hlen Hlt)) in Hnn.
   pose proof (Hle a Hlt) as Hlea.
-  assert (HEa : E a = dfinL a) by lia.
+  assert (HEa : exnum a = dfinL a) by lia.
   destruct (N.eq_dec j a) as [->|Hne]; [exact HEa|].
   apply (IH (a + 1)); try lia.
   rewrite sumF_succ, (sumE_succ _ _ _ (nth_error_E_lt a Hlen Hlt)). lia.
@@ -373,7 +373,7 @@ Qed.
 
 Lemma final_numbers acc : length ex = N.to_nat dmn -> E_le ->
   a_cur acc = [] -> Gd acc -> numinvL acc -> phiL acc 0 = kconstL -> a_dst acc <= dmn ->
-  forall d, d < dmn -> E d + msum d (a_migs acc) = dfinL d.
+  forall d, d < dmn -> exnum d + msum d (a_migs acc) = dfinL d.
 Proof.
   intros Hlen Hle Hcur HG Hnum Hphi Hdle d Hd.
   unfold phi, kconst in Hphi. pose proof HsumF as HF.
@@ -387,11 +387,11 @@ Proof.
   pose proof (nth_error_E_lt _ Hlen Hlt) as HEe.
   rewrite sumF_succ, (sumE_succ _ _ _ HEe) in Hnn.
   pose proof (Hle _ Hlt) as Hlea.
-  assert (Hna : a_num acc + E (a_dst acc) <= dfinL (a_dst acc)).
+  assert (Hna : a_num acc + exnum (a_dst acc) <= dfinL (a_dst acc)).
   { destruct Hnum as [Hz|[e [He Hl]]]; [lia|]. rewrite HEe in He. inversion He; subst e. lia. }
   destruct (N.eqb d (a_dst acc)) eqn:E1.
   - assert (d = a_dst acc) by lia. subst d. lia.
-  - assert (HEd : E d = dfinL d).
+  - assert (HEd : exnum d = dfinL d).
     { apply (T_zero Hlen Hle _ (a_dst acc + 1) eq_refl); try lia.
       rewrite sumF_succ, (sumE_succ _ _ _ HEe). lia. }
     lia.
@@ -414,7 +414,7 @@ Proof. unfold mindex, b2n. destruct (N.eqb (d mod 2) 1) eqn:E1; lia. Qed.
 
 (* the list of existing numbers computed by the planner, read at a master index *)
 Lemma existing_nums_nth : forall l ex i c p, existing_nums l = Some ex -> nth_error l i = Some c ->
-  E ex (mindex i p) = stable_num c p.
+  exnum ex (mindex i p) = stable_num c p.
 Proof.
   induction l as [|c0 rest IH]; intros ex i c p H Hn; [destruct i; discriminate|].
   cbn [existing_nums] in H.
@@ -423,7 +423,7 @@ Proof.
   destruct (existing_nums rest) as [r|] eqn:Er; [|discriminate].
   inversion H; subst ex. clear H.
   destruct i as [|i]; cbn [nth_error] in Hn.
-  - inversion Hn; subst c0. clear Hn. unfold E, stable_num.
+  - inversion Hn; subst c0. clear Hn. unfold exnum, stable_num.
     destruct p; cbn [ck_stable].
     + change (N.to_nat (mindex 0 true)) with 1%nat. cbn [nth].
       destruct (ck_stable1 c) as [rl|]; cbn [opt_ranges].
@@ -433,7 +433,7 @@ Proof.
       destruct (ck_stable0 c) as [rl|]; cbn [opt_ranges].
       * apply slots_num_some_wf in Ea. tauto.
       * inversion Ea. reflexivity.
-  - unfold E. replace (N.to_nat (mindex (S i) p)) with (S (S (N.to_nat (mindex i p)))) by (unfold mindex; lia).
+  - unfold exnum. replace (N.to_nat (mindex (S i) p)) with (S (S (N.to_nat (mindex i p)))) by (unfold mindex; lia).
     cbn [nth]. apply (IH r i c p eq_refl Hn).
 Qed.
 
@@ -477,7 +477,7 @@ Proof.
   assert (HsumE : sumE ex dmn = lsum ex).
   { unfold sumE. rewrite firstn_all2; [reflexivity|]. rewrite Hlen. unfold dmn. lia. }
   assert (Hdfin : forall j, dfin avg rem j = share dmn j) by (intros j; exact (share_unfold dmn j Hdmn)).
-  assert (HEst : forall i c p, (i < k)%nat -> nth_error (cl_chunks cl) i = Some c -> E ex (mindex i p) = stable_num c p).
+  assert (HEst : forall i c p, (i < k)%nat -> nth_error (cl_chunks cl) i = Some c -> exnum ex (mindex i p) = stable_num c p).
   { intros i c p Hi Hn. apply (existing_nums_nth _ _ _ _ _ Eex). rewrite nth_error_firstn_lt by exact Hi. exact Hn. }
   assert (Hle : E_le avg rem dmn ex).
   { intros d Hd. rewrite (mindex_decomp d). set (i := N.to_nat (d / 2)). set (p := N.eqb (d mod 2) 1).
@@ -489,4 +489,34 @@ Proof.
     apply share_mono; [exact Hdmn|]. unfold dmn. lia. }
   apply Forall_app in Hwf as Hwf'. destruct Hwf' as [Hwf1 Hwf2].
   apply (scale_down_chunks_num epoch avg rem dmn ex HsumF) in Ech; cbn [a_dst a_cur a_num a_migs]; auto.
-  Show.
+  - destruct Ech as (C1 & C2 & C3 & C4 & C5 & C6 & C7 & C8 & C9 & C10 & C11 & C12).
+    assert (Hlen' : length ex = N.to_nat dmn) by (unfold dmn; lia).
+    msplit.
+    + intros i c p Hn Hi.
+      rewrite nth_error_app1 in Hn by (rewrite Hfl; exact Hi).
+      rewrite nth_error_firstn_lt in Hn by exact Hi.
+      rewrite msum_rev, <- (HEst i c p Hi Hn), <- Hdfin.
+      apply (final_numbers avg rem dmn ex HsumF acc' Hlen' Hle C6 C10 C7 C9 C11).
+      unfold dmn. apply mindex_lt. exact Hi.
+    + intros i c p Hn Hi.
+      rewrite nth_error_app2 in Hn by (rewrite Hfl; exact Hi).
+      apply nth_error_In in Hn. destruct (C3 c Hn) as [X Y]. destruct p; assumption.
+    + intros rl m Hin. apply in_rev in Hin. exact (C12 rl m Hin).
+  - constructor.
+  - intros l m [].
+  - intros s. cbn [mig_ranges flat_map]. rewrite cnt_nil. specialize (Hcov s). rewrite cnt_app in Hcov.
+    unfold slot_ind in Hcov. destruct (N.ltb s SLOT_NUM); lia.
+  - left. reflexivity.
+  - unfold phi, kconst. cbn [a_dst a_num]. rewrite HsumE, Hsum.
+    assert (Htotal : slots_total (stable_ranges (firstn k (cl_chunks cl)) ++ stable_ranges (skipn k (cl_chunks cl))) = SLOT_NUM)
+      by (apply covers_total; assumption).
+    rewrite slots_total_app in Htotal.
+    assert (HF0 : sumF avg rem 0 = 0) by (unfold sumF; lia).
+    assert (HE0 : sumE ex 0 = 0) by reflexivity.
+    rewrite HF0, HE0. lia.
+  - apply Gd_init.
+  - lia.
+  - intros l m [].
+Qed.
+
+Print Assumptions scale_down_remove_numbers.
